@@ -1242,7 +1242,13 @@ pub fn wrange(prop: &str) -> (i64, i64) {
 pub fn sweep(prop: &str, seed: u64, exhaustive_n: usize, random: usize, nmax: usize, out: &mut Out) {
     let mut rng = Rng::new(seed);
     let (wlo, whi) = wrange(prop);
-    let f = prop_fn(prop);
+    let f0 = prop_fn(prop);
+    // sidecar: the abstract graph whose records are being computed (if the code under test kills or hangs the process,
+    // the check turns this into a violation instead of a tool error)
+    let f = |out: &mut Out, ag: &AG, rng: &mut Rng| {
+        out.log.about_to(&json!({"prop": prop, "n": ag.n, "dir": ag.directed, "E": ag.edges_json()}));
+        f0(out, ag, rng)
+    };
     for directed in [true, false] {
         for n in 0..=exhaustive_n {
             // all graphs with self-loops and up to 2 parallel edges for n <= 2, simple (+loops) for n = 3
